@@ -60,7 +60,7 @@ int main() {
 		auto t = vh::split(line);
 		if (t.empty() || t[0][0] == '#') continue;
 		if (sys.parse_line(t)) continue;
-		if (t[0] != "deriv" && t[0] != "block") { std::cout << "bad-line " << line << "\n"; continue; }
+		if (t[0] != "deriv" && t[0] != "block" && t[0] != "shiftcheck") { std::cout << "bad-line " << line << "\n"; continue; }
 		int sA = vh::I(t[1]), sB = vh::I(t[2]), u = vh::I(t[3]);
 		const auto &G = sys.geoms.at(0);
 		auto mk = [&](int s, const double *d) { const auto &S = sys.shells[s]; std::array<double, 3> c = {G[3*S.atom] + d[0], G[3*S.atom+1] + d[1], G[3*S.atom+2] + d[2]}; GaussianShell g(c, S.l); for (size_t i = 0; i < S.e.size(); i++) g.addPrim(S.e[i], S.c[i]); return g; };
@@ -72,6 +72,30 @@ int main() {
 			ECPIntegral eng(maxL, U.getL(), 0);
 			TwoIndex<double> I0; eng.compute_shell_pair(U, A, B, I0);
 			std::cout << "< I"; mat(std::cout, I0); std::cout << "\n< end\n";
+			continue;
+		}
+		if (t[0] == "shiftcheck") {
+			// the shifted blocks of an engine built for derivatives must be the blocks a plain engine computes for
+			// genuinely higher/lower shells: `compute_shell_pair(U, A, B, sa, sb)` on ECPIntegral(maxL, LU, order)
+			// versus `compute_shell_pair(U, A', B')` with l' = l + shift on ECPIntegral(maxL + order, LU, 0)
+			int order = vh::I(t[4]);
+			double z[3] = {0, 0, 0};
+			GaussianShell A = mk(sA, z), B = mk(sB, z); ECP U = mkU(u, z);
+			ECPIntegral engD(maxL, U.getL(), order), eng0(maxL + order, U.getL(), 0);
+			double worst = 0, scale = 0; int nblk = 0; std::string where = "-";
+			for (int sa = -order; sa <= order; sa++) for (int sb = -order; sb <= order; sb++) {
+				if (std::abs(sa) + std::abs(sb) > order || A.am() + sa < 0 || B.am() + sb < 0) continue;
+				GaussianShell A2(std::array<double,3>{A.center()[0], A.center()[1], A.center()[2]}, A.am() + sa), B2(std::array<double,3>{B.center()[0], B.center()[1], B.center()[2]}, B.am() + sb);
+				for (int i = 0; i < A.nprimitive(); i++) A2.addPrim(A.exp(i), A.coef(i));
+				for (int i = 0; i < B.nprimitive(); i++) B2.addPrim(B.exp(i), B.coef(i));
+				TwoIndex<double> X, Y;
+				engD.compute_shell_pair(U, A, B, X, sa, sb);
+				eng0.compute_shell_pair(U, A2, B2, Y);
+				nblk++;
+				if (X.data.size() != Y.data.size()) { worst = 1e300; where = "dims"; continue; }
+				for (size_t i = 0; i < X.data.size(); i++) { scale = std::max(scale, std::fabs(Y.data[i])); double d = std::fabs(X.data[i] - Y.data[i]); if (d > worst || d != d) { worst = d != d ? 1e300 : d; where = std::to_string(sa) + "," + std::to_string(sb); } }
+			}
+			std::cout << "< S " << nblk << " " << bits(worst) << " " << bits(scale) << " " << where << "\n< end\n";
 			continue;
 		}
 		int order = vh::I(t[4]);
